@@ -152,6 +152,23 @@ pub fn cases(rng: &mut Rng, tier: &str) -> (Vec<Case>, bool) {
         let checks = (0..ops.len()).filter(|i| ops[*i].starts_with("wsubmit")).map(|i| format!("web-ok {}", i)).collect();
         cases.push(Case { ops, checks, tag: "long-listing".into(), nontrivial: true, show: format!("LIST of {} lines, then NEW, LIST", len) });
     }
+    // the start-up loader, line by line: blank lines, lines of blanks only, unnumbered lines, indented numbered lines, CRLF,
+    // a command where a program line is due - each is skipped or entered as the page script does it (always compared with
+    // the script itself)
+    for text in ["REM unnumbered\n\n   \n10 PRINT 1\n", "10 PRINT 1\nPRINT 2\n20 PRINT 3", "\n\n10 PRINT \"A\"\n\t\n20 PRINT \"B\"\n", "  40 PRINT \"indented\"\n50 PRINT 5", "10 PRINT 1\r\n\r\n20 PRINT 2\r\n",
+        "   \n \t \nRUN\n10 PRINT 9", "", "\n", "x", "10 PRINT 1\n\n\n\n20 PRINT 2\nLIST\n30 PRINT 3", " \n10 INPUT A\n \n20 PRINT A\n"] {
+        let mut ops = vec!["wnew".to_string(), "wseed 3".to_string(), ev("wload", text)];
+        for _ in 0..8 {
+            ops.push("wtick".to_string());
+        }
+        ops.push(ev("wsubmit", "7"));
+        ops.push("wtick".to_string());
+        ops.push("wtick".to_string());
+        ops.push(ev("wsubmit", "LIST"));
+        ops.push("wtick".to_string());
+        let checks = (0..ops.len()).filter(|i| ops[*i].starts_with("wsubmit") || ops[*i].starts_with("wload") || ops[*i] == "wtick").map(|i| format!("web-ok {}", i)).collect();
+        cases.push(Case { ops, checks, tag: "loader-lines".into(), nontrivial: true, show: format!("start-up file {:?}", text) });
+    }
     // every session so far, once more on the page script itself: `class Interpreter` and the submit handler of
     // abasic-web/ts/main.ts run under node and drive the real adapter; they must agree with the transliteration
     // node is not among the tools this sandbox guarantees: without it the sessions run on the transliteration only
@@ -161,7 +178,7 @@ pub fn cases(rng: &mut Rng, tier: &str) -> (Vec<Case>, bool) {
     let n_cases = cases.len();
     for (ci, c) in cases.iter_mut().enumerate() {
         let fixed_family = c.tag == "string-pool" || c.tag == "long-listing";
-        if !node_ok || (!(fixed_family && (tier == "thorough" || ci % 3 == 0)) && ci % every != 0) {
+        if !node_ok || (!(fixed_family && (tier == "thorough" || ci % 3 == 0)) && ci % every != 0 && c.tag != "loader-lines") {
             continue;
         }
         if c.tag == "long-listing" && c.ops.len() > 400 {
